@@ -830,6 +830,13 @@ func sortMakesOrderDeterministic(call *ssa.Call) (bool, string) {
 					if r := reads(ret.Results[0], map[ssa.Value]bool{}); r != "" {
 						return false, "the comparator " + r + ": equal sort keys are possible, ties keep the random input order"
 					}
+					// a three-way result computed as a difference wraps around (or is cut by the conversion) for keys
+					// far apart: not an order any more, the result depends on the input order
+					if bt, isBasic := ret.Results[0].Type().Underlying().(*types.Basic); isBasic && bt.Info()&types.IsInteger != 0 {
+						if d := differenceIn(ret.Results[0], map[ssa.Value]bool{}); d != nil {
+							return false, "the comparator returns a difference of its sort keys (" + d.String() + "): it wraps around for keys far apart and is then not an order, the result depends on the random input order"
+						}
+					}
 					// the sort key: the elements themselves, or a field that identifies an element (frozen table);
 					// any other field can tie between distinct elements
 					for _, fld := range fieldsCompared(ret.Results[0]) {
@@ -843,6 +850,31 @@ func sortMakesOrderDeterministic(call *ssa.Call) (bool, string) {
 		return true, "custom comparator over the elements themselves or an identity field (a strict total order on distinct elements)"
 	}
 	return false, ""
+}
+
+// differenceIn: the subtraction a comparator's integer result is (through conversions and phis).
+func differenceIn(v ssa.Value, seen map[ssa.Value]bool) *ssa.BinOp {
+	if v == nil || seen[v] {
+		return nil
+	}
+	seen[v] = true
+	switch x := v.(type) {
+	case *ssa.BinOp:
+		if x.Op == token.SUB {
+			return x
+		}
+	case *ssa.Convert:
+		return differenceIn(x.X, seen)
+	case *ssa.ChangeType:
+		return differenceIn(x.X, seen)
+	case *ssa.Phi:
+		for _, e := range x.Edges {
+			if d := differenceIn(e, seen); d != nil {
+				return d
+			}
+		}
+	}
+	return nil
 }
 
 // carriedKind classifies a loop-header phi.
